@@ -375,13 +375,20 @@ func readCrud(src string) (funs []crudFun, scans map[string][]string, scanOrder 
 
 // ---- reader of the schema ----
 
-var reSetDefault = regexp.MustCompile(`ALTER TABLE (\w+) ALTER COLUMN (\w+) SET DEFAULT`)
+var (
+	reSetDefault = regexp.MustCompile(`ALTER TABLE (\w+) ALTER COLUMN (\w+) SET DEFAULT`)
+	reAddUnique  = regexp.MustCompile(`(?i)ALTER TABLE (\w+) ADD (?:UNIQUE|PRIMARY KEY)\s?\(([^)]*)\)`)
+)
 
 func coqSchema(text string) string {
 	sc := readSQLScript(text)
 	defaults := map[string]bool{}
 	for _, m := range reSetDefault.FindAllStringSubmatch(text, -1) {
 		defaults[m[1]+"."+m[2]] = true
+	}
+	uniques := map[string][]string{}
+	for _, m := range reAddUnique.FindAllStringSubmatch(text, -1) {
+		uniques[m[1]] = append(uniques[m[1]], coqStrList(splitList(m[2])))
 	}
 	var tables []string
 	for _, t := range sc.Tables {
@@ -395,7 +402,7 @@ func coqSchema(text string) string {
 			cols = append(cols, fmt.Sprintf("{| sc_name := %s; sc_serial := %s; sc_notnull := %s; sc_default := %s |}",
 				coqStr(parts[0]), coqBool(strings.HasPrefix(rest, "serial")), coqBool(strings.Contains(rest, "NOT NULL") || strings.Contains(rest, "PRIMARY KEY")), coqBool(defaults[t.Name+"."+parts[0]])))
 		}
-		tables = append(tables, fmt.Sprintf("{| st_name := %s; st_cols := %s |}", coqStr(t.Name), coqList(cols)))
+		tables = append(tables, fmt.Sprintf("{| st_name := %s; st_cols := %s; st_uniques := %s |}", coqStr(t.Name), coqList(cols), coqList(uniques[t.Name])))
 	}
 	return coqListNL(tables)
 }
